@@ -84,7 +84,7 @@ def run(ck, models, tier):
                 for ev in code_writes(v):
                     n_writes += 1
                     covered_sites.add((fn_of_event(ev), ev.where()))
-                    ok = self_field(ev.extra["dst"].e) == g.addr
+                    ok = g.addr is not None and self_field(resolve_alias(v, ev.extra["dst"])[0].e) == g.addr
                     ck.ob("R3.3", "guard-drop/destination", tm.target, ok,
                           "restore write targets %s (expected the guard's saved address self.%s)" % (fmt(ev.extra["dst"].e, 3), g.addr), where(ev))
                     sl = ev.extra.get("src_len")
